@@ -274,7 +274,9 @@ def make_case(inp):
         rows = inp["rows"]
         obs = {}
         for ext in ("csv", "ods", "xlsx"):
-            path = os.path.join(TMP, "cid_%d.%s" % (os.getpid(), ext))
+            # the suffix names the container whatever its spelling (CID.ODS, Cid.Xlsx); a third of the cases each
+            spelled = (ext, ext.upper(), ext.capitalize())[rnd.randrange(3)]
+            path = os.path.join(TMP, "cid_%d.%s" % (os.getpid(), spelled))
             if ext == "csv":
                 store_csv(path, rows)
             elif ext == "ods":
